@@ -172,7 +172,8 @@ def _check_sampled(spec, v, clause="sample"):
     r = R.member(spec, v)
     if r:
         out.append((R.key(clause, spec, r), f"{spec}: value {v!r} ({type(v).__name__}) is not a member"))
-    elif spec[0] in R.QUANT_CTORS and not R.is_multiple_of_q(v, spec[3]):
+    elif spec[0] in R.QUANT_CTORS and "q-not-dividing-bounds" not in R.tags(spec) \
+            and not R.is_multiple_of_q(v, spec[3]):
         out.append((R.key(clause, spec, "not-multiple-of-q"), f"{spec}: value {v!r} is not a multiple of q"))
     return out
 
@@ -240,9 +241,9 @@ def eval_cast(ctx, case):
 
 # ------------------------------------------------------------------ clause: decode
 
-def _vec_lattice(ctx, hp, reduced):
+def _vec_lattice(ctx, hp, reduced, fine=False):
     order = ctx.order(hp)
-    per = [R.unit_lattice(ctx.specs[i], reduced=reduced or len(ctx.specs) > 1) for i in order]
+    per = [R.unit_lattice(ctx.specs[i], reduced=reduced or len(ctx.specs) > 1, fine=fine) for i in order]
     for combo in itertools.product(*per):
         yield [x for part in combo for x in part]
 
@@ -251,7 +252,7 @@ def cases_decode(ctx, reduced):
     hp = ctx.hp()
     if isinstance(hp, Exception):
         return
-    for vec in _vec_lattice(ctx, hp, False):
+    for vec in _vec_lattice(ctx, hp, False, fine=not reduced):
         yield {"vec": vec}
 
 
@@ -699,9 +700,14 @@ def check_space(specs, reduced, cov, viols, seen):
                         viols[k] = Violation(PROP, k, what, {"specs": specs, "clause": clause, "case": case})
             else:
                 cov.outcome(clause + ":ok")
-                if clause in ("decode", "roundtrip", "active") and len(cov.samples) < 3 and nontrivial \
-                        and cov.c.get("evaluations", 0) % 7 == 0:
-                    cov.sample({"specs": specs, "clause": clause, "case": case, "result": "ok"})
+                done = cov.__dict__.setdefault("_sampled", set())
+                if nontrivial and clause not in done and clause in ("sample", "cast", "decode", "roundtrip", "active",
+                                                                    "json") \
+                        and (clause != "decode" or 0.0 < case["vec"][0] < 1.0) \
+                        and (clause != "active" or case["what"] == "decode"):
+                    done.add(clause)
+                    cov.sample({"specs": specs, "clause": clause, "case": case,
+                                "implementation_returned": _short(ctx.obs, 200), "oracle": "ok"})
 
 
 def task(t):
@@ -762,15 +768,15 @@ def run(tier, seed):
         "cartesian product: every domain constructor x parameter lattice (bounds pairs lower<=upper incl. equal, "
         "sizes, category lists, q, cast_int; see bounds) x clause {construct, sample, cast, decode, roundtrip, active, "
         "fixed, json} x the clause's finite input lattice (stub-RNG answer alphabet^size for sizes 1 and 3; all members "
-        "of finite domains / 13-point lattice of continuous ones; unit-cube lattice {0,EPS,j/8,1-EPS,1, rounding-cell "
+        "of finite domains / 13-point lattice of continuous ones; unit-cube lattice {0,EPS,j/8 (thorough j/64),1-EPS,1, rounding-cell "
         "boundaries +-1e-12}, {0,.5,1}^k for one-hot; all active sub-ranges over a 5-7 point sub-lattice / all subsets "
-        "/ all contiguous subsequences x a 7-point lattice of the bounds box; every member as fixed last value); plus "
+        "/ all contiguous subsequences x a 7-point lattice of the bounds box; up to 5 members (ends, near-ends, middle) as fixed last value); plus "
         "all ordered pairs and triples of representative domains with reduced per-coordinate lattices. "
         "distinct_nontrivial = number of distinct (space, clause, value returned by the implementation) triples "
         "over spaces that are not made of single-member domains only (measured by hashing; many lattice inputs "
         "map to the same returned value, so this is well below evaluations).")
     res.bounds = {"tier": tier, "lattice": {k: [repr(x) for x in v] for k, v in R.lattice(tier).items()},
-                  "category_lists": len(R.STR_CATS + R.INT_CATS_INC + R.INT_CATS_UNS + R.FLT_CATS_INC + R.FLT_CATS_UNS),
+                  "category_lists": [repr(c) for grp in R.category_lists(tier) for c in grp],
                   "representatives_for_products": len(R.REPS),
                   "triples_over": 7 if tier == "quick" else len(R.REPS),
                   "EPS": R.EPS, "DELTA": R.DELTA,
